@@ -73,7 +73,7 @@ class UnitarySerializedEmulator(IndependentSubcircuitsBackend):
                 if param.classical:
                     argv.append(val)
                 else:
-                    qind.append(val.alias_index)
+                    qind.append(val.resolve_qubit()[1])
 
             # This is the dense submatrix
             dsub = gatedef.ideal_unitary(*argv)
